@@ -181,6 +181,19 @@ Theorem irismod_codecs_agree : forall gogo : bool,
 Proof. intro gogo. apply same_descriptors_same_codec. exact families_agree. Qed.
 Print Assumptions irismod_codecs_agree.
 
+(** ... and so are the imported messages (Coin, PageRequest, PageResponse, Any, Timestamp,
+    Duration), under either reading of the gogoproto options: the WHOLE environment the model codec
+    is driven by is the same for the two families. *)
+Theorem codecs_agree : forall gogo : bool,
+  wire_env gogo (gogo_files ++ gogo_deps) = wire_env gogo (in_scope gogo_scope pulsar_files ++ pulsar_deps).
+Proof.
+  intro gogo. rewrite !wire_env_app. rewrite (irismod_codecs_agree gogo).
+  assert (H : wire_env gogo gogo_deps = wire_env gogo pulsar_deps)
+    by (destruct gogo; apply dec_eq_sound; vm_compute; reflexivity).
+  rewrite H. reflexivity.
+Qed.
+Print Assumptions codecs_agree.
+
 (** ** (c) the cross-family round trip *)
 
 (** When every non-nullable field of every (sub)message is present, the gogoproto family (as
